@@ -485,6 +485,9 @@ def C20(infos: List[EnumInfo], ctx: dict):
     for s in drops:
         if s.key() in G.VETTED_DROPS:
             continue
+        if s.auto:
+            observations.append({"site": s.key(), "fn": gen.short(s.fn), "reason": s.auto})
+            continue
         out.append(Violation("C20", "G2: no syn::Error is dropped (silent acceptance of malformed input)", "C20:dropped-error:%s" % s.key(),
                              "%s drops a syn::Error: %s" % (gen.short(s.fn), s.text), {"generator_fn": s.fn, "at": s.at, "expression": s.text, "derives": sorted(reach.get(s.fn, []))}))
     # ---- W: witnesses
